@@ -176,8 +176,11 @@ struct Emit<C> {
 fn exec_custom(_: DepsMut<MyQuery>, _: Env, _: MessageInfo, m: Emit<MyMsg>) -> StdResult<Response<MyMsg>> {
     Ok(Response::new().add_submessages(m.msgs.into_iter().map(SubMsg::new)))
 }
-fn inst_custom(_: DepsMut<MyQuery>, _: Env, _: MessageInfo, _: Empty) -> StdResult<Response<MyMsg>> {
-    Ok(Response::new())
+fn inst_custom(_: DepsMut<MyQuery>, _: Env, _: MessageInfo, m: Emit<MyMsg>) -> StdResult<Response<MyMsg>> {
+    Ok(Response::new().add_submessages(m.msgs.into_iter().map(SubMsg::new)))
+}
+fn perm_custom(_: DepsMut<MyQuery>, _: Env, m: Emit<MyMsg>) -> StdResult<Response<MyMsg>> {
+    Ok(Response::new().add_submessages(m.msgs.into_iter().map(SubMsg::new)))
 }
 fn query_custom(deps: Deps<MyQuery>, _: Env, req: QueryRequest<MyQuery>) -> StdResult<Binary> {
     // forward a query from inside the contract
@@ -186,8 +189,11 @@ fn query_custom(deps: Deps<MyQuery>, _: Env, req: QueryRequest<MyQuery>) -> StdR
 fn exec_empty(_: DepsMut, _: Env, _: MessageInfo, m: Emit<Empty>) -> StdResult<Response> {
     Ok(Response::new().add_submessages(m.msgs.into_iter().map(SubMsg::new)))
 }
-fn inst_empty(_: DepsMut, _: Env, _: MessageInfo, _: Empty) -> StdResult<Response> {
-    Ok(Response::new())
+fn inst_empty(_: DepsMut, _: Env, _: MessageInfo, m: Emit<Empty>) -> StdResult<Response> {
+    Ok(Response::new().add_submessages(m.msgs.into_iter().map(SubMsg::new)))
+}
+fn perm_empty(_: DepsMut, _: Env, m: Emit<Empty>) -> StdResult<Response> {
+    Ok(Response::new().add_submessages(m.msgs.into_iter().map(SubMsg::new)))
 }
 fn query_empty(_: Deps, _: Env, _: Empty) -> StdResult<Binary> {
     to_json_binary(&"q")
@@ -223,10 +229,10 @@ fn messages() {
         .with_gov(Rec::<GovMsg, Empty, Empty>::new("gov"))
         .with_stargate(RecStargate)
         .build(|router, _, storage| router.bank.init_balance(storage, &user, vec![coin(u0, "x")]).unwrap());
-    let code_c = app.store_code(Box::new(ContractWrapper::new(exec_custom, inst_custom, query_custom)));
-    let code_e = app.store_code(Box::new(ContractWrapper::new_with_empty(exec_empty, inst_empty, query_empty)));
-    let kc = app.instantiate_contract(code_c, user.clone(), &Empty {}, &[], "kc", None).unwrap();
-    let ke = app.instantiate_contract(code_e, user.clone(), &Empty {}, &[], "ke", None).unwrap();
+    let code_c = app.store_code(Box::new(ContractWrapper::new(exec_custom, inst_custom, query_custom).with_sudo(perm_custom).with_migrate(perm_custom)));
+    let code_e = app.store_code(Box::new(ContractWrapper::new_with_empty(exec_empty, inst_empty, query_empty).with_sudo_empty(perm_empty).with_migrate_empty(perm_empty)));
+    let kc = app.instantiate_contract(code_c, user.clone(), &Emit::<MyMsg> { msgs: vec![] }, &[], "kc", Some(user.to_string())).unwrap();
+    let ke = app.instantiate_contract(code_e, user.clone(), &Emit::<Empty> { msgs: vec![] }, &[], "ke", Some(user.to_string())).unwrap();
     let origin = choose(3); // 0 top level, 1 custom-typed contract, 2 Empty-typed contract (lifted)
     let amt = sym_u128("amt", 1, BAL);
     let custom_kinds = kinds(Some(MyMsg { tag: "hello".into() }), &other, amt);
@@ -245,18 +251,36 @@ fn messages() {
     note(format!("origin={} module={} fails={}", origin, module, module_fails));
     // an earlier transfer of a symbolic amount in the same transaction (must be rolled back on failure)
     let pay: CosmosMsg<MyMsg> = BankMsg::Send { to_address: other.to_string(), amount: vec![coin(amt, "x")] }.into();
+    // which entry point of the contract emits the message: 0 execute, 1 instantiate (a new instance),
+    // 2 migrate (by the admin), 3 sudo
+    let entry = if origin == 0 { 0 } else { choose(4) };
+    note(format!("entry={}", entry));
+    if entry == 3 {
+        // sudo is its own top-level entry: the transfer goes first as a separate transaction
+        if app.execute_multi(user.clone(), vec![pay.clone()]).is_err() {
+            return;
+        }
+    }
     let before = snap_storage(app.storage());
     LOG.with(|l| l.borrow_mut().clear());
-    let r = catch(|| match origin {
-        0 => app.execute_multi(user.clone(), vec![pay.clone(), custom_kinds[which].1.clone()]),
-        1 => {
-            let call = cosmwasm_std::WasmMsg::Execute { contract_addr: kc.to_string(), msg: to_json_binary(&Emit { msgs: vec![custom_kinds[which].1.clone()] }).unwrap(), funds: vec![] };
-            app.execute_multi(user.clone(), vec![pay.clone(), call.into()])
+    let r = catch(|| {
+        if origin == 0 {
+            return app.execute_multi(user.clone(), vec![pay.clone(), custom_kinds[which].1.clone()]);
         }
-        _ => {
-            let call = cosmwasm_std::WasmMsg::Execute { contract_addr: ke.to_string(), msg: to_json_binary(&Emit { msgs: vec![empty_kinds[which].1.clone()] }).unwrap(), funds: vec![] };
-            app.execute_multi(user.clone(), vec![pay.clone(), call.into()])
-        }
+        let (target, code, body) = if origin == 1 {
+            (kc.clone(), code_c, to_json_binary(&Emit { msgs: vec![custom_kinds[which].1.clone()] }).unwrap())
+        } else {
+            (ke.clone(), code_e, to_json_binary(&Emit { msgs: vec![empty_kinds[which].1.clone()] }).unwrap())
+        };
+        let call: CosmosMsg<MyMsg> = match entry {
+            0 => cosmwasm_std::WasmMsg::Execute { contract_addr: target.to_string(), msg: body, funds: vec![] }.into(),
+            1 => cosmwasm_std::WasmMsg::Instantiate { admin: None, code_id: code, msg: body, funds: vec![], label: "fresh".into() }.into(),
+            2 => cosmwasm_std::WasmMsg::Migrate { contract_addr: target.to_string(), new_code_id: code, msg: body }.into(),
+            _ => {
+                return app.sudo(cw_multi_test::SudoMsg::Wasm(cw_multi_test::WasmSudo { contract_addr: target, message: body })).map(|r| vec![r]);
+            }
+        };
+        app.execute_multi(user.clone(), vec![pay.clone(), call])
     });
     let r = match r {
         Ok(r) => r,
@@ -271,7 +295,22 @@ fn messages() {
         check_native("nothing_dispatched_after_a_failed_predecessor", entries.is_empty() && r.is_err(), || format!("{:?}", entries));
         return;
     }
-    let want_sender = [user.clone(), kc.clone(), ke.clone()][origin].clone();
+    let mut want_sender = [user.clone(), kc.clone(), ke.clone()][origin].clone();
+    if entry == 1 {
+        // emitted by the instantiate entry point of a NEW instance: its address is in the instantiate
+        // event when the transaction succeeded; after a rollback only "none of the known parties" is checkable
+        let new_addr = r.as_ref().ok().and_then(|rs| {
+            rs.iter().flat_map(|x| x.events.iter()).find(|e| e.ty == "instantiate").and_then(|e| e.attributes.iter().find(|a| a.key == "_contract_address").map(|a| a.value.clone()))
+        });
+        match (new_addr, entries.first().and_then(|e| e.sender.clone())) {
+            (Some(a), _) => want_sender = Addr::unchecked(a),
+            (None, Some(sd)) => {
+                check_native("sender_intact", sd != user && sd != kc && sd != ke, || format!("new instance's message sent as {}", sd));
+                want_sender = sd;
+            }
+            _ => {}
+        }
+    }
     // the variant name differs in Debug between CosmosMsg<MyMsg> and the inner message: compare on the
     // inner payload rendered by the module against the message's own Debug text
     let inner_ok = |e: &Entry| -> bool {
@@ -317,8 +356,8 @@ fn queries() {
         .with_ibc(Rec::<IbcMsg, IbcQuery, Empty>::new("ibc"))
         .with_stargate(RecStargate)
         .build(|_, _, _| {});
-    let code_c = app.store_code(Box::new(ContractWrapper::new(exec_custom, inst_custom, query_custom)));
-    let kc = app.instantiate_contract(code_c, user.clone(), &Empty {}, &[], "kc", None).unwrap();
+    let code_c = app.store_code(Box::new(ContractWrapper::new(exec_custom, inst_custom, query_custom).with_sudo(perm_custom).with_migrate(perm_custom)));
+    let kc = app.instantiate_contract(code_c, user.clone(), &Emit::<MyMsg> { msgs: vec![] }, &[], "kc", Some(user.to_string())).unwrap();
     let reqs: Vec<(&str, QueryRequest<MyQuery>, bool)> = vec![
         ("staking", QueryRequest::Staking(StakingQuery::BondedDenom {}), true),
         ("custom", QueryRequest::Custom(MyQuery { tag: "q".into() }), true),
@@ -370,10 +409,10 @@ fn bank_routing() {
         .with_bank(Rec::<BankMsg, BankQuery, BankSudo>::new("bank"))
         .with_custom(Rec::<MyMsg, MyQuery, Empty>::new("custom"))
         .build(|_, _, _| {});
-    let code_c = app.store_code(Box::new(ContractWrapper::new(exec_custom, inst_custom, query_custom)));
-    let code_e = app.store_code(Box::new(ContractWrapper::new_with_empty(exec_empty, inst_empty, query_empty)));
-    let kc = app.instantiate_contract(code_c, user.clone(), &Empty {}, &[], "kc", None).unwrap();
-    let ke = app.instantiate_contract(code_e, user.clone(), &Empty {}, &[], "ke", None).unwrap();
+    let code_c = app.store_code(Box::new(ContractWrapper::new(exec_custom, inst_custom, query_custom).with_sudo(perm_custom).with_migrate(perm_custom)));
+    let code_e = app.store_code(Box::new(ContractWrapper::new_with_empty(exec_empty, inst_empty, query_empty).with_sudo_empty(perm_empty).with_migrate_empty(perm_empty)));
+    let kc = app.instantiate_contract(code_c, user.clone(), &Emit::<MyMsg> { msgs: vec![] }, &[], "kc", Some(user.to_string())).unwrap();
+    let ke = app.instantiate_contract(code_e, user.clone(), &Emit::<Empty> { msgs: vec![] }, &[], "ke", Some(user.to_string())).unwrap();
     let amt = sym_u128("amt", 0, BAL);
     let lists: Vec<Vec<Coin>> = vec![vec![], vec![coin(amt, "x")], vec![coin(u(0), "x")], vec![coin(amt, "x"), coin(u(7), "y")]];
     let coins = lists[choose(lists.len())].clone();
